@@ -79,11 +79,12 @@ Theorem C13_encode_correct_needs_fragment : exists re s j, encode re s j <> vali
 Proof. exact encode_correct_needs_fragment. Qed.
 Print Assumptions C13_encode_correct_needs_fragment.
 
-Theorem C13_allOf_unconstrained_member_refuted :
-  valid re_a w_allOf (JStr sab) = true /\ encode re_a w_allOf (JStr sab) = false /\
-  r_dev (enc re_a w_allOf mall) = [DEV_allOf_count].
-Proof. exact allOf_unconstrained_member_refuted. Qed.
-Print Assumptions C13_allOf_unconstrained_member_refuted.
+(* was the witness of C13-F1 (matchN(len(items), kept)); with the fix it is inside the fragment *)
+Theorem C13_allOf_unconstrained_member_correct :
+  valid re_a w_allOf (JStr sab) = true /\ encode re_a w_allOf (JStr sab) = true /\
+  r_dev (enc re_a w_allOf mall) = [].
+Proof. exact allOf_unconstrained_member_correct. Qed.
+Print Assumptions C13_allOf_unconstrained_member_correct.
 
 Theorem C13_allOf_false_member_refuted :
   valid re_a w_allOf_false (JNum 2) = false /\ encode re_a w_allOf_false (JNum 2) = true /\
@@ -109,11 +110,12 @@ Theorem C13_prefixItems_refuted :
 Proof. exact prefixItems_refuted. Qed.
 Print Assumptions C13_prefixItems_refuted.
 
-Theorem C13_empty_name_refuted :
-  valid re_a w_empty (JObj [([], JNum 2)]) = false /\ encode re_a w_empty (JObj [([], JNum 2)]) = true /\
-  r_dev (enc re_a w_empty mall) = [DEV_empty_name].
-Proof. exact empty_name_refuted. Qed.
-Print Assumptions C13_empty_name_refuted.
+(* was the witness of C13-F6 (empty property name and the exclusion regexp); with the fix it is inside the fragment *)
+Theorem C13_empty_name_correct :
+  valid re_a w_empty (JObj [([], JNum 2)]) = false /\ encode re_a w_empty (JObj [([], JNum 2)]) = false /\
+  r_dev (enc re_a w_empty mall) = [].
+Proof. exact empty_name_correct. Qed.
+Print Assumptions C13_empty_name_correct.
 
 Theorem C13_error_argument_refuted :
   valid re_a w_ite (JObj [(sa, JNum 2)]) = true /\ encode re_a w_ite (JObj [(sa, JNum 2)]) = false /\
@@ -127,11 +129,12 @@ Theorem C13_oneOf_false_member_refuted :
 Proof. exact oneOf_false_member_refuted. Qed.
 Print Assumptions C13_oneOf_false_member_refuted.
 
-Theorem C13_integer_and_number_refuted :
-  valid re_a w_intnum (JNum 3) = true /\ encode re_a w_intnum (JNum 3) = false /\
-  r_dev (enc re_a w_intnum mall) = [DEV_integer_and_number].
-Proof. exact integer_and_number_refuted. Qed.
-Print Assumptions C13_integer_and_number_refuted.
+(* was the witness of C13-F10 (type list with integer and number); with the fix it is inside the fragment *)
+Theorem C13_integer_and_number_correct :
+  valid re_a w_intnum (JNum 3) = true /\ encode re_a w_intnum (JNum 3) = true /\
+  r_dev (enc re_a w_intnum mall) = [].
+Proof. exact integer_and_number_correct. Qed.
+Print Assumptions C13_integer_and_number_correct.
 
 (* ---- non-vacuity ---- *)
 Example C13_fragment_examples :
